@@ -128,7 +128,32 @@ JudgeC(c) ==
                      spec |-> IF b = 0 THEN PlanKind(r.f, r.X, T) ELSE Outcome(r.X[b], T).k,
                      impl |-> IF r.n = 0 THEN r.err.k ELSE "ran"] : k \in bad }]
 
-Judge(c) == IF c.kind = "R" THEN JudgeR(c) ELSE JudgeC(c)
+\* kind "V": get_parsed_args_vs on the same kind of record (argv[2] projected to "@SLN" when it is the solution file of
+\* the build directory; r.n = 1 when a command line was produced, 0 when an error was raised)
+RunClauseV(T, r) ==
+    LET must == StrictlyFailing(r.X, T) IN
+    IF r.n = 0 THEN
+        IF r.err.x \in 1..Len(r.X) THEN
+             LET e == r.X[r.err.x] IN
+             IF \E o \in Permitted(e, T) : o.k # "ok" /\ Agree(GotErr(r), o, T) THEN "ok"
+             ELSE ResolveClause(e, T, GotErr(r))
+        ELSE "UnexpectedError"
+    ELSE IF must # {} THEN
+        LET x == CHOOSE x \in must : \A y \in must : x <= y IN
+        ResolveClause(r.X[x], T, [k |-> "ok", id |-> "", c |-> <<>>])
+    ELSE VsClause(r.argv, r.f, r.X, T)
+
+JudgeV(c) ==
+    LET T == Elems(c.T)
+        bad == { k \in 1..Len(c.runs) : RunClauseV(T, c.runs[k]) # "ok" }
+    IN [id |-> c.id, clause |-> IF bad = {} THEN "ok" ELSE "Run", nbad |-> Cardinality(bad),
+        fails |-> { LET r == c.runs[k]   b == Blamed(T, r) IN
+                    [x |-> k, clause |-> RunClauseV(T, r),
+                     shape |-> IF b = 0 THEN "" ELSE Shape(r.X[b]),
+                     spec |-> IF b = 0 THEN "run" ELSE Outcome(r.X[b], T).k,
+                     impl |-> IF r.n = 0 THEN r.err.k ELSE "ran"] : k \in bad }]
+
+Judge(c) == IF c.kind = "R" THEN JudgeR(c) ELSE IF c.kind = "V" THEN JudgeV(c) ELSE JudgeC(c)
 
 Init == i \in 1..Len(Cases) /\ done = FALSE
 Next == /\ ~done
